@@ -3,22 +3,30 @@
 P = {
     "id": "C15",
     "claimed": True,
-    "coq_targets": ["C15/Spec.vo", "C15/Proofs.vo", "Properties/C15.vo", "Run/Eval_C15.vo"],
+    "coq_targets": ["C15/Spec.vo", "C15/QueryLemmas.vo", "C15/Proofs.vo", "C15/MainProof.vo", "Properties/C15.vo", "Run/Eval_C15.vo"],
     "theorems_module": "Properties.C15",
     "theorems": [
         "C15_view_wellformed", "C15_view_is_request_path",
-        "C15_wire_path_exact", "C15_decoded_path", "C15_scheme_rewritten", "C15_request_line", "C15_query_untouched",
+        "C15_wire_path_exact", "C15_wire_path_on", "C15_decoded_path", "C15_scheme_rewritten", "C15_request_line", "C15_query_untouched",
+        "C15_query_only_removed", "C15_query_only_removed_pinned",
         "C15_headers_name_by_name", "C15_pipeline_header_wins", "C15_pipeline_host_wins", "C15_host_is_forward_to",
         "C15_no_forwarded_passthrough", "C15_forwarded_extended_by_peer", "C15_method_body_untouched",
-        "C15_F1_refuted", "C15_F2_refuted", "C15_F3_refuted", "C15_F4_refuted", "C15_F5_refuted",
+        "C15_header_names_any_casing", "C15_spec_holds",
+        "C15_F1_pinned_refuted", "C15_F4_pinned_refuted", "C15_F2_refuted", "C15_F3_refuted", "C15_F5_refuted",
         "C15_nonvacuous",
     ],
     "streams": [{
         "name": "proxy", "pkg": "./internal/handler/proxy", "test": "TestVerifC15",
         "overlay": {"internal/handler/proxy/zz_verif_c15_test.go": "c15/c15_test.go"},
-        "eval_module": "Run.Eval_C15", "check_term": "check current",
+        "eval_module": "Run.Eval_C15", "check_term": "check repaired",
         "n_quick": 1200, "n_thorough": 30000, "shard": 150,
-        "findings": {1: "C15-F1", 2: "C15-F2", 3: "C15-F3", 4: "C15-F4", 5: "C15-F5"},
+        "findings": {2: "C15-F2", 3: "C15-F3", 5: "C15-F5"},
+    }, {
+        "name": "units", "pkg": "./internal/rules/config", "test": "TestVerifC15Units",
+        "overlay": {"internal/rules/config/zz_verif_c15_units_test.go": "c15/c15_units_test.go"},
+        "eval_module": "Run.Eval_C15", "check_term": "ucheck repaired",
+        "n_quick": 1500, "n_thorough": 40000, "shard": 300,
+        "findings": {},
     }],
     "rule": "requests written byte for byte over TCP (request target of 1-4 segments built from words, percent-escapes of reserved / "
             "unreserved / non-ASCII bytes in either hex case, reserved literals, bytes net/url re-encodes, broken escapes; queries with "
@@ -47,21 +55,25 @@ P = {
         "AddHeaderForUpstream / AddCookieForUpstream / Body()",
     ],
     "level_text": "Proof (kernel-checked, closed under the global context) about an executable model of the proxy path client bytes -> request view -> "
-                  "ruleImpl.Execute/CreateURL/Rewrite -> ReverseProxy/rewriteRequest -> upstream bytes: for ALL request paths, rewrite "
-                  "configurations, header sets and pipelines (no size bound) the wire path is add_prefix ++ (raw path minus strip prefix) byte for "
-                  "byte under off/no_decode when the prefix to add is a valid encoded path; the decoded path is preserved for every setting "
-                  "(no double encoding); scheme/host/request line follow the rewrite; every header field the upstream sees is characterised name "
-                  "by name (pipeline values replace client values in any casing, X-Forwarded-Method/-Uri/-Path never pass, X-Forwarded-For or "
-                  "Forwarded is extended by the peer, other fields pass unchanged, hop-by-hop fields dropped); method and body are untouched. "
-                  "Five findings (C15-F1..F5) are proved as refutations with guards. The model is tied to the code by running both on ~1250 "
-                  "(quick) / 30000 (thorough) generated requests per run through the real proxy service and comparing method, request target, "
-                  "Host, all header fields and body at raw TCP upstream servers.",
+                  "ruleImpl.Execute/CreateURL/Rewrite -> ReverseProxy/rewriteRequest -> upstream bytes. Main theorem C15_spec_holds: for ALL requests "
+                  "(any bytes in path, query, header names/values, body), ALL pipeline outputs and ALL rules / rewrite configurations on which none "
+                  "of the three open findings shows (guards: trusted X-Forwarded-Method differs; `on` with a path net/url would re-spell; "
+                  "add_path_prefix not a valid encoded path), what the model forwards satisfies every sentence of the property (spec_ok: scheme, "
+                  "host, wire path = add ++ (raw path minus strip prefix) byte for byte, removed query parameters key by key, method, body, every "
+                  "header field name by name: pipeline values replace client values in any casing, X-Forwarded-Method/-Uri/-Path never pass, "
+                  "X-Forwarded-For or Forwarded extended by the peer, other fields unchanged, hop-by-hop dropped). Separately: no double encoding "
+                  "for every setting/configuration (C15_decoded_path), removed query parameters for EVERY query incl. unparsable ones "
+                  "(C15_query_only_removed, after the repair of C15-F1), ParseQuery/Encode round trip, field names in any casing. Two findings "
+                  "repaired by fix: commits (C15-F1 41fd1db, C15-F4 35453b2; pinned behaviour kept as _pinned_refuted), three open findings proved "
+                  "as refutations with guards. The model is tied to the code by running both on ~1250 (quick) / 30000 (thorough) generated requests "
+                  "per run through the real proxy service and comparing method, request target, Host, all header fields and body at raw TCP "
+                  "upstream servers; the evaluator also checks spec_ok on the implementation's observation.",
     "level_note": "Trusted: Coq kernel/vm_compute; the harness (generator, stub executor/authenticator, raw TCP client and upstream, Gallina rendering); "
-                  "net/http, ReverseProxy and Transport behaviour is modelled as observed. PARTIAL: the kv-level theorem for removed query "
-                  "parameters on parsable queries and the single theorem 'no guard => spec_ok' are checked per case by the evaluator "
-                  "(spec_ok on the implementation's observation) but not yet proved for all inputs; the request view (trusted X-Forwarded-Proto/"
-                  "-Uri/-Host) is taken as 'the original' request; CONNECT, Upgrade/Te/Expect, pipeline headers named like framing/hop-by-hop "
-                  "fields, cookie values needing sanitising are neither generated nor modelled.",
+                  "net/http server parsing, ReverseProxy and Transport behaviour is modelled as observed (not verified); Base/GoUrl mirrors net/url "
+                  "(checked by C08's gourl stream and end to end here). The request view (trusted X-Forwarded-Proto/-Uri/-Host) is taken as 'the "
+                  "original' request; its url.Parse is an oracle. Not generated, not modelled: CONNECT, Upgrade/Te/Expect, pipeline headers named "
+                  "like framing/hop-by-hop fields, cookie values needing sanitising, pipeline Host values that are not plain host names, TLS "
+                  "towards heimdall.",
     "assumptions": [
         "the upstream speaks HTTP/1.1 (ALPN offers only http/1.1 on the TLS upstream), heimdall itself is reached without TLS",
         "header values are sent without leading/trailing blanks; names are RFC 7230 tokens",
